@@ -707,11 +707,18 @@ pub fn run(ctx: &RunCtx) -> i32 {
         run_history(&rt, r, &h);
         r.sample(&format!("h{}", j % 3), || json!({"history": h.iter().take(12).collect::<Vec<_>>(), "length": h.len()}));
     });
+    // uploads held open while other writes start, fail, are abandoned and complete (the leg of C19, here also judging
+    // answers: an upload that arrived intact must be acknowledged)
+    let mut total = total;
+    total.merge(crate::monitor::c19::inflight_leg(ctx, "C18", true, ctx.tier.sz(160, 8_000), 8));
     finish(ctx, &meta, &total)
 }
 
 pub fn replay(v: &Value) -> i32 {
     let w = &v["witness"];
+    if w["kind"] == "inflight" || w["witness_of"]["kind"] == "inflight" {
+        return super::replay_verdict("C18", &crate::monitor::c19::replay_inflight(w));
+    }
     let mut r = Report::new();
     let rt = new_runtime_real();
     let h: Vec<Step> = serde_json::from_value(w["history"].clone()).unwrap_or_else(|e| harness_error(&format!("bad history: {e}")));
